@@ -272,10 +272,15 @@ def from_jsonable(o):
     return o
 
 
+CURRENT = None      # the Report of the running check (see ./check)
+
+
 class Report:
     """Collects violations, known findings and coverage; writes evidence."""
 
     def __init__(self, pid, tier, level="model_checking"):
+        global CURRENT
+        CURRENT = self
         self.pid, self.tier, self.level = pid, tier, level
         self.t0 = time.time()
         self.violations = []      # (key, text, replay)
